@@ -14,6 +14,18 @@ WHY = {
                 "label): declared not decided",
     "C17-2": "monotonicity under duplication (min_df pruning): declared not decided (C16/C17)",
     "C17-r2-2": "monotonicity under duplication (max_df pruning): declared not decided (C16/C17)",
+    "C15-r3-1": "completeness of the rule pre-filter (an index by regex id keeps only the last occurrence): search "
+                "completeness is declared not decided",
+    "C17-r3-2": "monotonicity under duplication (class priors swapped in the estimator): numeric behaviour of the "
+                "estimator, declared not decided (C16/C17)",
+    "C01-r3-2": "`next()` over a 12-month generator search can be exhausted: the interpreter runs out of its path "
+                "budget on the generator (exit 2, no verdict); deciding it needs calendar arithmetic over the window",
+    "C10-r3-1": "labels and text cleaning merged into one tuple-returning helper that removes markers with "
+                "`str.replace`: outside the provenance terms (exit 2, no verdict)",
+    "C19-r3-2": "productions registered by `rule(...)(helper(f))` at module level: the rule table can no longer be "
+                "read off decorators (every rule-base check exits 2, no verdict)",
+    "C20-r3-2": "`datetime == date` is always False in the shared weekday helper; reported by C03 (weekday never the "
+                "reference day), which is the clause actually broken; C20 compares compositions and is not affected",
     "C20-r2-2": "initial scoring moved below the coverage filter so the depth cut keeps arbitrary sequences: a "
                 "ranking effect, not decided by C20; reported by C14 `depth cut after sort`",
 }
@@ -35,35 +47,57 @@ def main():
         m["needs_to_manifest"] = " ".join(first[:3])[:500]
         m["own_check_before_strengthening"] = {1: "VIOLATION", 0: "silent", 2: "analysis incomplete"}.get(
             ub.get(name), "n/a")
-        m["round"] = 2 if "-r2-" in name else 1
+        rm = re.search(r"-r(\d+)-", name)
+        m["round"] = int(rm.group(1)) if rm else 1
         json.dump(m, open(d + "meta.json", "w"), indent=1)
         rows.append((name, m))
 
     def files(name):
         txt = open(os.path.join(VERIF, "seeded", name, "patch.diff")).read()
         return ", ".join(f.replace("ctparse/", "") for f in sorted(set(re.findall(r"^\+\+\+ b/(\S+)", txt, re.M))))
-    n_before = sum(1 for n, m in rows if m["own_check_before_strengthening"] == "VIOLATION")
-    n1 = sum(1 for n, m in rows if m["own_check_before_strengthening"] == "VIOLATION" and m["round"] == 1)
-    n_now = sum(1 for n, m in rows if m["detected_by_own_property_check"])
+    total = len(rows)
+    rounds = sorted({m["round"] for n, m in rows})
+
+    def cnt(pred, rnd=None):
+        return sum(1 for n, m in rows if pred(m) and (rnd is None or m["round"] == rnd))
+    n_before = cnt(lambda m: m["own_check_before_strengthening"] == "VIOLATION")
+    n_inc_before = cnt(lambda m: m["own_check_before_strengthening"] == "analysis incomplete")
+    n_now = cnt(lambda m: m["detected_by_own_property_check"])
+    n_inc_now = cnt(lambda m: not m["detected_by_own_property_check"] and m["property"] in m["checks_analysis_incomplete"])
+    stats = ("Measured against the snapshot of `/verif` that existed *before* the respective round was read "
+             "(`seeded/unbiased_first_pass.log`: round 1 against commit aeb5af4, round 2 against a29a19e, round 3 "
+             "against 082ffc4), the property's own check reported {} of the {} changes ({}), {} more ended without a "
+             "verdict (exit 2) and the rest were silent. The misses were read, generalised into rules (never into "
+             "matches on the seeded text) and the checks strengthened; with the committed checks the own check "
+             "reports {} of {} ({}), {} end without a verdict (exit 2: the analysis says it cannot decide that tree, "
+             "which is not a detection and is not counted as one), and {} are silent. Those are listed with the "
+             "reason; none is claimed.").format(
+        n_before, total, ", ".join("{} of {} in round {}".format(
+            cnt(lambda m: m["own_check_before_strengthening"] == "VIOLATION", r), cnt(lambda m: True, r), r) for r in rounds),
+        n_inc_before, n_now, total, ", ".join("{} in round {}".format(
+            cnt(lambda m: m["detected_by_own_property_check"], r), r) for r in rounds),
+        n_inc_now, total - n_now - n_inc_now)
     out = ["| seed | files touched | own check before / now | other checks reporting now | remark |",
            "|------|---------------|------------------------|----------------------------|--------|"]
     for name, m in rows:
         others = [c for c in m["checks_reporting_violation"] if c != m["property"]]
         out.append("| {} | {} | {} / {} | {} | {} |".format(
             name, files(name), m["own_check_before_strengthening"],
-            "VIOLATION" if m["detected_by_own_property_check"] else "silent", " ".join(others) or "—",
-            WHY.get(name, "") + (" analysis incomplete in {}".format(m["checks_analysis_incomplete"])
-                                 if m["checks_analysis_incomplete"] else "")))
+            "VIOLATION" if m["detected_by_own_property_check"] else
+            ("no verdict (exit 2)" if m["property"] in m["checks_analysis_incomplete"] else "silent"),
+            " ".join(others) or "—",
+            WHY.get(name, "") + (" [no verdict from: {}]".format(" ".join(
+                c for c in m["checks_analysis_incomplete"] if c != m["property"]))
+                if [c for c in m["checks_analysis_incomplete"] if c != m["property"]] else "")))
     s = open(os.path.join(VERIF, "DESIGN.md")).read()
     a = s.index("| seed | files touched |")
     b = s.index("\n\n", a)
     s = s[:a] + "\n".join(out) + s[b:]
-    s = re.sub(r"check reported \d+ of the 76 changes \(\d+ in round 1, \d+ in round 2\)",
-               "check reported {} of the 76 changes ({} in round 1, {} in round 2)".format(n_before, n1, n_before - n1), s)
-    s = re.sub(r"the own check reports \d+ of 76\. The \d+ that remain",
-               "the own check reports {} of 76. The {} that remain".format(n_now, 76 - n_now), s)
+    a = s.index("<!-- seedstats:begin -->") + len("<!-- seedstats:begin -->")
+    b = s.index("<!-- seedstats:end -->")
+    s = s[:a] + "\n**Honest numbers.** " + stats + "\n" + s[b:]
     open(os.path.join(VERIF, "DESIGN.md"), "w").write(s)
-    print(len(rows), "seeds; own check before", n_before, "now", n_now)
+    print(len(rows), "seeds; own check before", n_before, "now", n_now, "no verdict now", n_inc_now)
 
 
 if __name__ == "__main__":
